@@ -42,6 +42,7 @@ def pre_demerits(a):
 KP = ["boxworks-knuthplass", "common", "boxworks"]
 
 PROP = {
+    "level_text": "Only the arithmetic kernels are decided: badness (TeX.2021.108) and demerits (TeX.2021.859) equal TeX's for every operand in the stated ranges, from MIR by z3+cvc5. 'A pass finds a solution iff one exists and it is demerit-optimal' is NOT decided: a regression in the active-list search passes this check.",
     "title": "Line breaking: badness and demerits are TeX's for every operand",
     "explanation": (
         "Only the arithmetic kernels of the breaker are decided: badness (TeX.2021.108) and demerits (TeX.2021.859), private, "
